@@ -27,6 +27,7 @@ PROPS = {
         "assumptions": COMMON_ASSUME + ["minReadySeconds is 0 at every call site, so availability = Ready condition"],
     },
     "C05": {
+        "extra_theorems": [("EdsProofs.FactsBridge", "facts_keys")],
         "level_text": "Lean theorems C05_only_if (promotion away from an existing active replica set implies the statement's rule, for every strategy/annotations/conditions/clock), C05_failed_never_by_time, C05_manual_never_by_time, C05_paused_never_by_time, C05_valid_promotes, C05_adopt_when_missing, C05_no_canary, C05_requeue about the model of selectCurrentReplicaSet; tied to the code by running the real function on the full combination lattice with exact instants (-1ns/0/+1ns around both durations).",
         "level_note": TB + 'Modelled by hand: selectCurrentReplicaSet and the annotation/condition readers. Assumes the spec passed the CRD enum and ValidateExtendedDaemonSetSpec, as Reconcile guarantees before selecting.',
         "streams": [("select_current", 4000, 80000)],
@@ -37,6 +38,7 @@ PROPS = {
         "assumptions": COMMON_ASSUME + ["spec passed the CRD schema (validationMode is auto or manual) and ValidateExtendedDaemonSetSpec (no duration in manual mode), as Reconcile guarantees before selecting"],
     },
     "C16": {
+        "extra_theorems": [("EdsProofs.FactsBridge", "facts_defaults")],
         "level_text": "Lean theorems about the model of Default*/IsDefaulted*/Validate* (C16_validate_total: validation of a defaulted spec never dereferences nil; further defaulting theorems as they land) for every spec of the model's type; the real Default, IsDefaulted and Validate run with recover() over the boundary lattice of every strategy field and are compared with the model, and the specification predicates (recognised, idempotent, preserves-user, fills, no-crash) are evaluated on the real outputs.",
         "level_note": TB + 'Modelled by hand: the defaulting and validation functions; the CRD schema is transcribed by hand into the generators. Coverage-guided fuzzing named in the quantifier is outside this technique.',
         "streams": [("defaults", 4000, 120000), ("max_creation", 2000, 40000)],
@@ -71,6 +73,7 @@ PROPS = {
         "level_text": "Lean theorems C08_paused_no_update_delete, C08_frozen_nothing, C08_resume, C08_sync, C08_flags, C08_paused_not_promoted, C08_validate_overrides_pause, C08_pause_sources, C08_state, C08_canary_state for every counter state / annotation map / replica-set status, about the models of ManageDeployment, selectCurrentReplicaSet, nonCanaryState and manageStatus; canary-side clauses (no creation while paused or failed, resume on unpause incl. the zero-pod case) are proved in EdsProps/C06. Tied by the manage_deployment, manage_canary and select_current streams over every annotation value (absent, true, false, junk) and rollout state.",
         "level_note": TB + "Modelled by hand: ManageDeployment, manageCanaryStatus, selectCurrentReplicaSet, manageStatus. Toggling histories across reconciles are covered by the scenario streams when registered.",
         "streams": [("manage_deployment", 1500, 30000), ("manage_canary", 2500, 50000), ("select_current", 2000, 40000)],
+        "extra_theorems": [("EdsProofs.FactsBridge", "facts_keys"), ("EdsProofs.FactsBridge", "facts_states"), ("EdsProps.C06", "C08_")],
         "trusted_base": ["hand-written models of ManageDeployment / manageCanaryStatus / selectCurrentReplicaSet / manageStatus tied by three function streams"],
         "assumptions": COMMON_ASSUME,
     },
@@ -81,5 +84,14 @@ PROPS = {
         "trusted_base": ["Go's truncating Duration division = Int.tdiv; calculateMaxCreation model tied by the max_creation stream"],
         "partial": ["C09_spacing (two write-issuing syncs are reconcileFrequency apart) is stated on the Reconcile model and not yet proved"],
         "assumptions": COMMON_ASSUME,
+    },
+    "C06": {
+        "extra_theorems": [("EdsProofs.FactsBridge", "facts_reason_tables"), ("EdsProofs.FactsBridge", "facts_keys")],
+        "level_text": "Lean theorems C06_failed_iff (Canary-Failed after the sync = failed before, or auto-fail enabled and some evaluated pod exceeds maxRestarts / the recorded restart span exceeds maxRestartsDuration / the canary outlasted canaryTimeout), C06_failed_sticky, C06_paused_iff (while not failed: paused = not unpaused and (paused before or some pod fires an auto-pause trigger), for pod vectors of ANY length and order), C06_unpause_never_unfails, C06_disabled_never_fire, C06_condition_failed_written / C06_condition_paused_written (the conditions persisted equal the flags), C06_blocks_creation, C06_empty_unpause_override, about the model of manageCanaryStatus / manageCanaryPodFailures; the real function runs through a now-taking shim on pod vectors with restart counts at threshold-1/0/+1 for both thresholds, waiting reasons in and out of the cannot-start table, start times at +-1ns of maxSlowStartDuration, all enabled combinations and previous condition states, compared field by field (all conditions, reasons, messages) with the model.",
+        "level_note": TB + "Modelled by hand: manageCanaryStatus, manageCanaryPodFailures, HighestRestartCount, MostRecentRestart, CannotStart, PendingCreate (the reason tables are extracted from the source and proved equal to the model's, FactsBridge). A pod with a waiting reason and no status.startTime panics in the real code (kubelet never produces it); the model returns none there and the theorems are stated for non-panicking runs.",
+        "streams": [("manage_canary", 5000, 120000)],
+        "trusted_base": ["hand-written model of manageCanaryStatus/manageCanaryPodFailures tied by the manage_canary stream (5000 cases agree on every output field)"],
+        "partial": ["C06_restart_timeline (history invariant on the PodRestarting condition across syncs) is not yet stated"],
+        "assumptions": COMMON_ASSUME + ["pods carry status.startTime whenever a container is waiting (kubelet-consistent)"],
     },
 }
